@@ -33,11 +33,14 @@ PickFault(sc, st, c) ==
     LET r == Req(c, st.idx[c]) k == st.rtx[c] + 1 IN
     IF st.idx[c] >= 1 /\ r <= Len(sc.rf) /\ k <= Len(sc.rf[r]) THEN sc.rf[r][k] ELSE Drop
 \* after idx was advanced inside the same step (request start): look at the request that is about to transmit
+\* the user's cancellation of the request that is about to start (ticks after its CALL, 0 = none)
+PickCancel(sc, st, c) ==
+    LET r == Req(c, st.idx[c] + 1) IN IF st.idx[c] < NReq /\ r <= Len(sc.uc) THEN sc.uc[r] ELSE 0
 PickConn(sc, st) == IF st.cfails + st.trn - 1 < Len(sc.conn) THEN sc.conn[st.cfails + st.trn] ELSE "ok"
 
 Same(m, r) ==
     /\ m.e = r.e /\ m.t = r.t
-    /\ (m.e \in {"CALL", "RET"} => m.r = r.r)
+    /\ (m.e \in {"CALL", "RET", "UCANCEL"} => m.r = r.r)
     /\ (m.e \in {"SEND", "DLV", "OPEN", "CLOSE", "PEERCLOSE", "ERR"} => m.tr = r.tr)
     /\ (m.e = "DLV" => m.f.what = r.what)
     /\ (m.e = "RET" => m.out = r.out)
@@ -61,7 +64,7 @@ CRunOne ==
            o == PickConn(sc, s)
            \* the pause after the request caller c is finishing (per caller and request when the script gives `gaps`)
            g == IF Len(sc.gaps) >= c /\ s.idx[c] >= 1 /\ s.idx[c] <= Len(sc.gaps[c]) THEN sc.gaps[c][s.idx[c]] ELSE sc.gap
-           X == Callback(X0(s), cb, f, o, g)
+           X == Callback(X0(s), cb, f, o, g, PickCancel(sc, s, c))
        IN /\ Matches(X.ev, sc.ev, pos)
           /\ s' = X.s
           /\ ready' = Tail(ready) \o X.q
